@@ -1,5 +1,6 @@
 /- line-protocol driver for the C09 model (Mathlib-free).
 
+   maxjoined <n>                                 -> ok   (max_joined_circuits of all nodes)
    delay <ticks>                                 -> ok   (remove_tunnel_delay of the nodes created afterwards … of all nodes)
    node <label> <start>                          -> ok
    <label> <time> mk <id> <goal> <peer> <cands> <ident>
@@ -116,6 +117,10 @@ def step (st : St) (toks : List String) : St × String :=
   | ["delay", d] =>
     match d.toNat? with
     | some d => (({ st.1 with delay := d }, st.2), "ok")
+    | none => (st, "bad-op")
+  | ["maxjoined", d] =>
+    match d.toNat? with
+    | some d => (({ st.1 with maxJoined := d }, st.2), "ok")
     | none => (st, "bad-op")
   | ["node", l, t] =>
     match l.toNat?, t.toNat? with
